@@ -37,15 +37,23 @@ var aliasTokens = func() []string {
 	for _, r := range []rune{0xa0, 0x1680, 0x2003, 0x202f, 0x205f, 0x3000, 0x200b, 0xe9, 0xdf, 0x3b1} {
 		add(r)
 	}
+	// code points a decoder uses as sentinels: the replacement character (what a decoding error and the end of
+	// input look like to a careless reader), non-characters, the last code point, a private-use character
+	for _, r := range []rune{0xfffd, 0xfffe, 0xffff, 0x10ffff, 0xe000, 0x1f600} {
+		add(r)
+	}
 	return out
 }()
 
+// invalidUTF8Tokens reach the parser through the hook only (YAML cannot carry them)
+var invalidUTF8Tokens = []string{"\xff", "\xc3", "\xe2\x82", "\xc0\x80", "\xed\xa0\x80"}
+
 // compileAliasTokens is the sample of aliasTokens used by the end-to-end units (one compilation per string)
-var compileAliasTokens = []string{"\u00a0", "\u2009", "\u00de", "\u205e", "\uff5c", "\uff0f", "\u00a8", "\u3000"}
+var compileAliasTokens = []string{"\u00a0", "\u2009", "\u00de", "\u205e", "\uff5c", "\uff0f", "\u00a8", "\u3000", "\ufffd", "\uffff"}
 
 func allPathTokens(full bool) []string {
 	if full {
-		return append(append([]string{}, pathTokens...), aliasTokens...)
+		return append(append(append([]string{}, pathTokens...), aliasTokens...), invalidUTF8Tokens...)
 	}
 	return append(append([]string{}, pathTokens...), compileAliasTokens...)
 }
@@ -217,6 +225,10 @@ func singleEditsOver(s string, pathTokens []string) []string {
 }
 
 func genC16(t *rapid.T) c16Case {
+	return genC16Over(t, append(append([]string{}, pathTokens...), aliasTokens...))
+}
+
+func genC16Over(t *rapid.T, tokens []string) c16Case {
 	// random larger sentence, then 0..3 edits
 	pg := &pgen{t: t, leaves: 8}
 	p := pg.path(0)
@@ -244,7 +256,7 @@ func genC16(t *rapid.T) c16Case {
 			break
 		}
 		pos := rapid.IntRange(0, len(toks)).Draw(t, "pos")
-		tok := pick(t, allPathTokens(true), "tok")
+		tok := pick(t, tokens, "tok")
 		switch rapid.IntRange(0, 2).Draw(t, "edit") {
 		case 0:
 			if pos < len(toks) {
